@@ -144,6 +144,20 @@ pub fn msg_roundtrip(ctx: &mut Ctx, c: &SControl) {
             }
         }
     }
+    // through a reader whose T is a lease on shared storage: a decoder that keeps one T alive
+    // while it asks the reader for more would fail the round trip there (RefCell-backed readers)
+    if enc.len() <= 8192 {
+        let run = exec::decode_msg(&enc, Some(SOpts::STRICT), Rk::Wiping);
+        ctx.rep.bucket("msg.roundtrip.lease_reader");
+        let overlapping = run.log.as_ref().map(|l| l.borrow().calls_with_live_lease).unwrap_or(0);
+        if overlapping > 0 {
+            ctx.violate(
+                "C03:msg-roundtrip:reader-called-while-lease-alive",
+                format!("decoding the encoded message made {} reader calls while a T from an earlier bytes() call was still alive: with a reader whose T is a guard on shared storage the round trip panics", overlapping),
+                J::obj(vec![("message", J::s(format!("{:?}", c))), ("encoded_hex", J::hex(&enc[..enc.len().min(4096)]))]),
+            );
+        }
+    }
     // the reference must agree that this is what the octets mean (guards against a symmetric bug)
     if let Some(ref_enc) = senc::message(&m) {
         if ref_enc.len() != enc.len() {
